@@ -1,4 +1,5 @@
 import NdnProofs.Lemmas.PacketParse
+import NdnProofs.Lemmas.PacketParseInterest
 import NdnProofs.Props.C01
 /-!
 # C02 — Signatures and parameter digests cover the specified bytes; tampering is detected
@@ -251,5 +252,158 @@ theorem params_digest_iff (H : Bytes → Bytes) (p : Ptrs) :
       · cases d with
         | nil => exact absurd rfl h1
         | cons _ _ => rfl
+
+/-! ### the ranges `parse_interest` reports for a made Interest -/
+
+/-- **parsed_cover_is_signed_portion_interest.** Parsing a made signed Interest (digest component
+    appended) reports as signature-covered parts all name components except the ParametersSha256Digest
+    component followed by ApplicationParameters and SignatureInfo — byte for byte what the signer was
+    handed —, as signature value the signature the signer wrote, as digest-covered range
+    ApplicationParameters … end of the (shrunk) Interest, and as digest value the `H` of exactly that range.
+    Hypotheses as in `sign_input_is_signed_portion_interest`, plus: name components are single TLV elements
+    and none is a digest component, the values are legal for their fields, `H` yields 32 bytes. -/
+theorem parsed_cover_is_signed_portion_interest (H : Bytes → Bytes) (name : List Bytes) (mid : List Value)
+    (app sigInfo : Value) (s : SignerOut) (midB appB siB : Bytes)
+    (hmid : encFields [.bool 33, .bool 18, linksS, .uint 10 (some 4), .uint 12 none, .uint 34 (some 1)] mid = .ok midB)
+    (happ : enc (.bytes 36 false) app = .ok appB) (hsi : enc intSigInfoS sigInfo = .ok siB)
+    (hle : s.sig.length ≤ s.reserved) (hflex : s.sig.length = s.reserved ∨ s.reserved < 253)
+    (hr : s.reserved < 2 ^ 64)
+    (hname : name.all compOk = true) (hnd : ∀ c ∈ name, isDigestComp c = false)
+    (hfitmid : fitsFs [.bool 33, .bool 18, linksS, .uint 10 (some 4), .uint 12 none, .uint 34 (some 1)] mid = true)
+    (hfittail : fitsFs [.bytes 36 false, intSigInfoS] [app, sigInfo] = true)
+    (hH : (H (appB ++ siB ++ tlv 46 s.sig)).length = 32)
+    (hsize : (concatB (name ++ [2 :: 32 :: H (appB ++ siB ++ tlv 46 s.sig)])).length + midB.length +
+        (appB ++ siB).length + s.reserved + 64 < 2 ^ 64) :
+    ∃ m vals ptrs, interestCore H name mid app sigInfo (some s) true none = .ok m ∧
+      parseInterest m.wire = .ok (vals, ptrs) ∧
+      concatB ptrs.sigCovered = concatB name ++ appB ++ siB ∧
+      concatB ptrs.sigCovered = concatB m.covered ∧
+      ptrs.sigValue = some s.sig ∧
+      ptrs.digestCovered = [appB ++ siB ++ tlv 46 s.sig] ∧
+      ptrs.digestCovered = [m.digestCovered] ∧
+      ptrs.digestValue = some (H (appB ++ siB ++ tlv 46 s.sig)) := by
+  have htail : encFields [.bytes 36 false, intSigInfoS] [app, sigInfo] = .ok (appB ++ siB) := by
+    simp [encFields, happ, hsi, bind, Except.bind, pure, Except.pure]
+  have hpd := placeDigest_appended name (H ((appB ++ siB) ++ tlv 46 s.sig))
+  have hw := C01.make_interest_wire H name mid app sigInfo s midB (appB ++ siB) hmid htail hle hflex hr
+    _ _ rfl hpd.symm hsize
+  have hsz : (tlv 7 (concatB (name ++ [2 :: 32 :: H (appB ++ siB ++ tlv 46 s.sig)])) ++ midB ++ (appB ++ siB) ++
+      tlv 46 s.sig).length < 2 ^ 64 := by
+    simp only [List.length_append, tlv_length] at hsize ⊢
+    have h7 : tlNumSize 7 = 1 := by decide
+    have h46 : tlNumSize 46 = 1 := by decide
+    have := tlNumSize_cases (concatB (name ++ [2 :: 32 :: H (appB ++ siB ++ tlv 46 s.sig)])).length
+    have := tlNumSize_cases s.sig.length
+    omega
+  have hp := parseInterest_signed name _ mid app sigInfo s.sig midB (appB ++ siB) hmid htail hname hnd hH
+    hfitmid hfittail (by omega) hsz
+  have hcov : concatB (name ++ [appB ++ siB]) = concatB name ++ appB ++ siB := by
+    rw [concatB_append]; simp [concatB, List.append_assoc]
+  refine ⟨_, _, _, hw, hp, hcov, ?_, rfl, rfl, rfl, rfl⟩
+  rw [hcov]
+  -- the chunks handed to the signer
+  have ht := placeDigest_take name digestPlaceholder (H ((appB ++ siB) ++ tlv 46 s.sig))
+  rw [hpd] at ht
+  simp only [nameChunks, ht.1, ht.2, concatB, List.isEmpty_nil, if_true, List.append_nil]
+  by_cases he : (concatB name).isEmpty
+  · have : concatB name = [] := by simpa using he
+    simp [concatB, this]
+  · simp [he, concatB, List.append_assoc]
+
+/-- **own_interest_passes_digest_check.** `params_sha256_checker` accepts the SignaturePtrs that
+    `parse_interest` reports for a made signed Interest. -/
+theorem own_interest_passes_digest_check (H : Bytes → Bytes) (name : List Bytes) (mid : List Value)
+    (app sigInfo : Value) (s : SignerOut) (midB appB siB : Bytes)
+    (hmid : encFields [.bool 33, .bool 18, linksS, .uint 10 (some 4), .uint 12 none, .uint 34 (some 1)] mid = .ok midB)
+    (happ : enc (.bytes 36 false) app = .ok appB) (hsi : enc intSigInfoS sigInfo = .ok siB)
+    (hle : s.sig.length ≤ s.reserved) (hflex : s.sig.length = s.reserved ∨ s.reserved < 253)
+    (hr : s.reserved < 2 ^ 64)
+    (hname : name.all compOk = true) (hnd : ∀ c ∈ name, isDigestComp c = false)
+    (hfitmid : fitsFs [.bool 33, .bool 18, linksS, .uint 10 (some 4), .uint 12 none, .uint 34 (some 1)] mid = true)
+    (hfittail : fitsFs [.bytes 36 false, intSigInfoS] [app, sigInfo] = true)
+    (hH : (H (appB ++ siB ++ tlv 46 s.sig)).length = 32)
+    (hsize : (concatB (name ++ [2 :: 32 :: H (appB ++ siB ++ tlv 46 s.sig)])).length + midB.length +
+        (appB ++ siB).length + s.reserved + 64 < 2 ^ 64) :
+    ∃ m vals ptrs, interestCore H name mid app sigInfo (some s) true none = .ok m ∧
+      parseInterest m.wire = .ok (vals, ptrs) ∧ paramsCheck H ptrs = true := by
+  obtain ⟨m, vals, ptrs, h1, h2, _, _, _, h6, _, h8⟩ :=
+    parsed_cover_is_signed_portion_interest H name mid app sigInfo s midB appB siB hmid happ hsi hle hflex hr
+      hname hnd hfitmid hfittail hH hsize
+  refine ⟨m, vals, ptrs, h1, h2, ?_⟩
+  rw [params_digest_iff]
+  refine ⟨_, h8, ?_, by rw [h6]; simp, by rw [h6]; simp [concatB]⟩
+  intro e; rw [e] at hH; simp at hH
+
+/-- **own_interest_verifies.** Under `Correct`, when the signer wrote `S.sign` of what it was handed, the
+    matching verifier accepts the SignaturePtrs `parse_interest` reports for the made Interest. -/
+theorem own_interest_verifies (S : Scheme) (hc : Correct S) (H : Bytes → Bytes) (name : List Bytes)
+    (mid : List Value) (app sigInfo : Value) (s : SignerOut) (midB appB siB : Bytes)
+    (hmid : encFields [.bool 33, .bool 18, linksS, .uint 10 (some 4), .uint 12 none, .uint 34 (some 1)] mid = .ok midB)
+    (happ : enc (.bytes 36 false) app = .ok appB) (hsi : enc intSigInfoS sigInfo = .ok siB)
+    (hle : s.sig.length ≤ s.reserved) (hflex : s.sig.length = s.reserved ∨ s.reserved < 253)
+    (hr : s.reserved < 2 ^ 64)
+    (hname : name.all compOk = true) (hnd : ∀ c ∈ name, isDigestComp c = false)
+    (hfitmid : fitsFs [.bool 33, .bool 18, linksS, .uint 10 (some 4), .uint 12 none, .uint 34 (some 1)] mid = true)
+    (hfittail : fitsFs [.bytes 36 false, intSigInfoS] [app, sigInfo] = true)
+    (hH : (H (appB ++ siB ++ tlv 46 s.sig)).length = 32)
+    (hsize : (concatB (name ++ [2 :: 32 :: H (appB ++ siB ++ tlv 46 s.sig)])).length + midB.length +
+        (appB ++ siB).length + s.reserved + 64 < 2 ^ 64)
+    (hsigned : s.sig = S.sign (concatB name ++ appB ++ siB)) :
+    ∃ m vals ptrs, interestCore H name mid app sigInfo (some s) true none = .ok m ∧
+      parseInterest m.wire = .ok (vals, ptrs) ∧ verifyPtrs S ptrs = true := by
+  obtain ⟨m, vals, ptrs, h1, h2, h3, _, h5, _⟩ :=
+    parsed_cover_is_signed_portion_interest H name mid app sigInfo s midB appB siB hmid happ hsi hle hflex hr
+      hname hnd hfitmid hfittail hH hsize
+  exact ⟨m, vals, ptrs, h1, h2, verify_own S hc ptrs _ h3 (by rw [h5, hsigned])⟩
+
+/-- **parsed_digest_cover_params_interest.** For an unsigned Interest that carries ApplicationParameters
+    the parser reports no signature value, the name components except the digest component as the only
+    covered parts, ApplicationParameters … end as the digest-covered range and `H` of it as digest value;
+    `params_sha256_checker` accepts. -/
+theorem parsed_digest_cover_params_interest (H : Bytes → Bytes) (name : List Bytes) (mid : List Value)
+    (app sigInfo : Value) (midB tailA : Bytes)
+    (hmid : encFields [.bool 33, .bool 18, linksS, .uint 10 (some 4), .uint 12 none, .uint 34 (some 1)] mid = .ok midB)
+    (htail : encFields [.bytes 36 false, intSigInfoS] [app, sigInfo] = .ok tailA)
+    (hname : name.all compOk = true) (hnd : ∀ c ∈ name, isDigestComp c = false)
+    (hfitmid : fitsFs [.bool 33, .bool 18, linksS, .uint 10 (some 4), .uint 12 none, .uint 34 (some 1)] mid = true)
+    (hfittail : fitsFs [.bytes 36 false, intSigInfoS] [app, sigInfo] = true)
+    (hne : tailA ≠ []) (hH : (H tailA).length = 32)
+    (hsize : (concatB (name ++ [2 :: 32 :: H tailA])).length + midB.length + tailA.length + 64 < 2 ^ 64) :
+    ∃ m vals ptrs, interestCore H name mid app sigInfo none true none = .ok m ∧
+      parseInterest m.wire = .ok (vals, ptrs) ∧
+      ptrs.sigValue = none ∧ ptrs.sigCovered = name ∧
+      ptrs.digestCovered = [tailA] ∧ ptrs.digestCovered = [m.digestCovered] ∧
+      ptrs.digestValue = some (H tailA) ∧ paramsCheck H ptrs = true := by
+  have hpd := placeDigest_appended name (H tailA)
+  have hw := C01.make_interest_params_wire H name mid app sigInfo midB tailA hmid htail _ hpd.symm hsize
+  have hsz : (tlv 7 (concatB (name ++ [2 :: 32 :: H tailA])) ++ midB ++ tailA).length < 2 ^ 64 := by
+    simp only [List.length_append, tlv_length] at hsize ⊢
+    have h7 : tlNumSize 7 = 1 := by decide
+    have := tlNumSize_cases (concatB (name ++ [2 :: 32 :: H tailA])).length
+    omega
+  have hp := parseInterest_params name _ mid app sigInfo midB tailA hmid htail hname hnd hH hfitmid hfittail
+    hne hsz
+  refine ⟨_, _, _, hw, hp, rfl, rfl, rfl, rfl, rfl, ?_⟩
+  rw [params_digest_iff]
+  refine ⟨_, rfl, ?_, by simp, by simp [concatB]⟩
+  intro e; rw [e] at hH; simp at hH
+
+/-! ### non-vacuity: a concrete signed Interest (shrinking signer: reserved 8, real 5; `H` constant) is made,
+    parsed, and its reported ranges are the signer's input / the digest input -/
+example :
+    (do let m ← interestCore (fun _ => List.replicate 32 7) [[8, 1, 97]]
+                  [.none, .bool, .none, .uint 5, .uint 4000, .none] (.bytes [120, 121])
+                  (.model [.uint 3, .none, .none, .none, .none]) (some { reserved := 8, sig := [1, 2, 3, 4, 5] }) true none
+        let (vs, p) ← parseInterest m.wire
+        pure (m.covered, vs, p, paramsCheck (fun _ => List.replicate 32 7) p)) =
+    .ok ([[8, 1, 97], [36, 2, 120, 121, 44, 3, 27, 1, 3]],
+         List.replicate 7 (Value.uint 0) ++
+           [Value.name [[8, 1, 97], 2 :: 32 :: List.replicate 32 7], .none, .bool, .none, .uint 5, .uint 4000, .none] ++
+           [.uint 51, .uint 51, .bytes [120, 121], .model [.uint 3, .none, .none, .none, .none],
+            .bytes [1, 2, 3, 4, 5], .none],
+         { sigCovered := [[8, 1, 97], [36, 2, 120, 121, 44, 3, 27, 1, 3]], sigValue := some [1, 2, 3, 4, 5],
+           digestCovered := [[36, 2, 120, 121, 44, 3, 27, 1, 3, 46, 5, 1, 2, 3, 4, 5]],
+           digestValue := some (List.replicate 32 7) }, true) := by
+  rfl
 
 end Ndn.C02
